@@ -916,7 +916,8 @@ func (c *Ctx) c19CheckProcJob(bt *Batch, jb *procJob) {
 		c.Sample(map[string]any{"stream": stream, "argv": jb.Cmd.Args, "fault": jb.J.Fault, "exit": base.Exit, "stdout": clip(base.Stdout)[:min(300, len(clip(base.Stdout)))]})
 	}
 	c.Monitor(stream, i, "terminates (unperturbed run)", in, !base.Timeout, "timeout")
-	expectFail := jb.J.Fault == "unopened" || jb.J.Fault == "assert" || (jb.J.Fault == "noprice" && jb.Cmd.Valued)
+	noprice := jb.J.Fault == "noprice" || jb.J.Fault == "early" // a booking in a commodity that has no price on its day
+	expectFail := jb.J.Fault == "unopened" || jb.J.Fault == "assert" || (noprice && jb.Cmd.Valued)
 	// outcome model of the command: a journal with a fault in a stage makes the command fail, otherwise it succeeds
 	c.Compare(stream, i, "exit-status", in, fmt.Sprintf("fail=%v", base.Exit != 0), fmt.Sprintf("fail=%v", expectFail))
 	c.Class(fmt.Sprintf("%s/%s/%s/fault-%s", stream, jb.Cmd.Name, strings.Join(jb.Cmd.Args[1:], " "), jb.J.Fault))
@@ -946,7 +947,11 @@ func (c *Ctx) c19CheckProcJob(bt *Batch, jb *procJob) {
 			sameOut = strings.HasPrefix(pr.Stdout, base.Stdout) || strings.HasPrefix(base.Stdout, pr.Stdout)
 		}
 		c.Monitor(stream, i, "same stdout as the unperturbed run", in2, sameOut, "perturbed:\n"+clip(pr.Stdout)+"\nunperturbed:\n"+clip(base.Stdout))
-		if jb.J.Fault != "noprice" { // the missing-price message names map-ordered positions
+		if expectFail {
+			// "when any stage fails ... the command returns an error ... rather than reporting success", in every schedule
+			c.Monitor(stream, i, "a failing stage is never reported as success", in2, pr.Exit != 0, fmt.Sprintf("exit 0 on a journal with fault %q; stdout %s", jb.J.Fault, clip(pr.Stdout)))
+		}
+		if !noprice { // the missing-price message names map-ordered positions
 			c.Monitor(stream, i, "error of a failing stage (same message as the unperturbed run)", in2, stripPath(pr.Stderr) == stripPath(base.Stderr) || strings.Contains(pr.Stderr, "DATA RACE"),
 				"perturbed:\n"+clip(pr.Stderr)+"\nunperturbed:\n"+clip(base.Stderr))
 		}
@@ -1501,6 +1506,274 @@ func (c *Ctx) c19Grow(stream string, njournals, ncmds, nseeds int) {
 				seeds = append(seeds, c.Seed*7919+uint64(i*31+s)+1)
 			}
 			jobs = append(jobs, &procJob{Stream: stream, Index: i, J: jr, Cmd: pc, Seeds: seeds, Race: (j+k)%4 != 3, Long: true})
+		}
+	}
+	c.c19RunProcJobs(jobs)
+	bt := c.NewBatch()
+	for _, jb := range jobs {
+		c.c19CheckProcJob(bt, jb)
+	}
+	bt.Flush()
+}
+
+// ---------------------------------------------------------------- quote stream: the price table changes piecewise
+//
+// The journals of the trace / race / grow streams re-price many commodities on (nearly) every day: every price day replaces the
+// whole normalized table, and a commodity gets its first price together with the daily quotes of all the others. Here the
+// table changes piecewise. After an (optional) first price day a journal has days WITHOUT any price directive (they share the
+// table of the last price day, while the valuation stage is still reading it one day behind the price stage) and price days
+// of every composition: exactly one directive that quotes a commodity for the first time and nothing else (in CHF, in an older
+// foreign commodity, in the commodity introduced just before; written `price NEW p OLD` or `price OLD p NEW`), two or three
+// new commodities at once, a new commodity next to a re-quote of an old one, a plain re-quote. Valued bookings stand on the
+// days just before, on and after every such day: positions in the old commodities (so that Valuate walks over the shared table at
+// the start of each day and for every posting), bookings in the new commodity on the day of its first price and after, and -
+// fault "early" - a booking in a commodity one to three days BEFORE its first price: every valued command must fail on it ('no
+// price found'), in every schedule, however far the price stage has got ahead. Sizes: 0-8 first quotes, 2 to ~90 days.
+
+var c19qNames = []string{"USD", "EUR", "AAPL", "GLD", "BTC", "T1", "Q2X", "ZZZZ", "NESN", "JPY", "X9", "VTI", "SEK", "MSFT"}
+
+func genQuoteJournal(r *RNG, fault string, thorough bool) genJournal {
+	type line struct {
+		day  int
+		text string
+	}
+	var lines []line
+	ndays := map[int]bool{}
+	add := func(d int, format string, a ...any) {
+		lines = append(lines, line{d, fmt.Sprintf(format, a...)})
+		ndays[d] = true
+	}
+	names := append([]string{}, c19qNames...)
+	for i := len(names) - 1; i > 0; i-- {
+		j := r.Intn(i + 1)
+		names[i], names[j] = names[j], names[i]
+	}
+	nnew := r.Range(1, 8)
+	if fault == "" && r.Chance(1, 10) {
+		nnew = 0 // only re-quotes and days without prices
+	}
+	nold := r.Range(0, 3) // priced on day 0
+	if nold == 0 && nnew == 0 {
+		nold = 1
+	}
+	gapMax := Pick(r, []int{1, 2, 3, 3, 6, 12})
+	if thorough && r.Chance(1, 4) {
+		gapMax = 40
+	}
+	dens := r.Range(1, 4)
+	// accounts
+	accs := []string{"Assets:Bank", "Assets:Broker:Depot", "Assets:Cash:Wallet", "Liabilities:Card"}
+	add(0, "%s open Equity:Opening\n", c19Date(0))
+	add(0, "%s open Expenses:Fees\n", c19Date(0))
+	add(0, "%s open Income:Salary\n", c19Date(0))
+	for _, a := range accs {
+		add(0, "%s open %s\n", c19Date(0), a)
+	}
+	groups := []string{"Bank", "Broker", "Cash", "Card"}
+	nacc := 0
+	account := func(d int) string {
+		if r.Chance(1, 4) {
+			nacc++
+			g := Pick(r, groups)
+			p := "Assets:"
+			if g == "Card" {
+				p = "Liabilities:"
+			}
+			a := fmt.Sprintf("%s%s:P%d", p, g, nacc)
+			if g == "Broker" && r.Bool() {
+				a = fmt.Sprintf("Assets:Broker:Depot:S%d", nacc)
+			}
+			accs = append(accs, a)
+			add(d, "%s open %s\n", c19Date(d), a)
+			return a
+		}
+		return Pick(r, accs)
+	}
+	txn := 0
+	tx := func(d int, credit, debit string, qty int, com string) {
+		txn++
+		add(d, "%s \"t%d\"\n%s %s %d %s\n", c19Date(d), txn, credit, debit, qty, com)
+	}
+	cur := map[string]int{}
+	quote := func(d int, com, base string) {
+		if cur[com] == 0 {
+			cur[com] = r.Range(50, 50000)
+		} else {
+			cur[com] = max(1, cur[com]+r.Range(-cur[com]/20-1, cur[com]/20+1))
+		}
+		if r.Chance(1, 6) {
+			add(d, "%s price %s %s %s\n", c19Date(d), base, c19Cents(cur[com]), com) // the old commodity quoted in the new one
+		} else {
+			add(d, "%s price %s %s %s\n", c19Date(d), com, c19Cents(cur[com]), base)
+		}
+	}
+	var known []string            // commodities that have a price, in the order of their first quote
+	baseOf := map[string]string{} // what a commodity is quoted in
+	held := map[string]int{}      // quantity in the depot
+	introduce := func(d int, com string) {
+		base := "CHF"
+		if len(known) > 0 {
+			switch r.Intn(5) {
+			case 0:
+				base = known[len(known)-1] // a chain: quoted in the commodity introduced last
+			case 1:
+				base = Pick(r, known)
+			}
+		}
+		baseOf[com] = base
+		quote(d, com, base)
+		known = append(known, com)
+	}
+	bookings := func(d int, n int) {
+		for ; n > 0; n-- {
+			switch k := r.Intn(10); {
+			case k < 5 && len(known) > 0: // a position in a commodity that has a price
+				com := Pick(r, known)
+				q := r.Range(1, 500)
+				a := account(d)
+				tx(d, "Equity:Opening", a, q, com)
+				if a == "Assets:Broker:Depot" {
+					held[com] += q
+				}
+			case k < 6 && len(known) > 0: // spend some of it
+				com := Pick(r, known)
+				if held[com] < 2 {
+					continue
+				}
+				q := r.Range(1, held[com]/2)
+				held[com] -= q
+				tx(d, "Assets:Broker:Depot", "Expenses:Fees", q, com)
+			case k < 8:
+				tx(d, "Income:Salary", account(d), r.Range(1, 5000), "CHF")
+			default:
+				tx(d, "Assets:Bank", "Expenses:Fees", r.Range(1, 50), "CHF")
+			}
+		}
+	}
+	// day 0: the first price day (or none: the first quote of the journal is then a first quote of a single commodity)
+	for k := 0; k < nold; k++ {
+		introduce(0, names[k])
+	}
+	tx(0, "Equity:Opening", "Assets:Bank", 100000, "CHF")
+	for _, com := range known {
+		if r.Chance(2, 3) {
+			tx(0, "Equity:Opening", "Assets:Broker:Depot", 1000, com)
+			held[com] += 1000
+		}
+	}
+	fresh := names[nold : nold+nnew]
+	earlyAt := -1
+	if fault == "early" {
+		earlyAt = r.Intn(nnew)
+	}
+	d := 0
+	for len(fresh) > 0 || d == 0 {
+		// quiet days and re-quote days between two first quotes
+		gap := r.Range(1, gapMax)
+		lead := Pick(r, []int{1, 1, 1, 2, 3})
+		n := 1 // how many commodities the next price day quotes for the first time
+		if r.Chance(1, 5) {
+			n = r.Range(2, 3)
+		}
+		n = min(n, len(fresh))
+		first := nnew - len(fresh)
+		early := earlyAt >= first && earlyAt < first+n // the next price day introduces the commodity that is booked too early
+		if early && lead > gap {
+			gap = lead
+		}
+		for g := 1; g < gap; g++ {
+			if r.Intn(4) < dens {
+				bookings(d+g, r.Range(1, dens))
+			}
+			if len(known) > 0 && r.Chance(1, 5) {
+				com := Pick(r, known)
+				quote(d+g, com, baseOf[com])
+			}
+		}
+		d += gap
+		if len(fresh) == 0 {
+			break
+		}
+		if early {
+			// the booking that has no price on its day: `lead` days before the first quote of its commodity
+			tx(d-lead, "Equity:Opening", account(d-lead), r.Range(1, 50), fresh[earlyAt-first])
+		}
+		// the price day
+		for k := 0; k < n; k++ {
+			introduce(d, fresh[k])
+		}
+		newc := fresh[:n]
+		fresh = fresh[n:]
+		if len(known) > n && r.Chance(1, 6) {
+			com := Pick(r, known[:len(known)-n]) // a re-quote next to the first quote
+			quote(d, com, baseOf[com])
+		}
+		if r.Chance(1, 2) {
+			tx(d, "Equity:Opening", account(d), r.Range(1, 300), newc[0]) // booked on the day of its first price
+		}
+		if r.Intn(4) < dens {
+			bookings(d, r.Range(1, dens))
+		}
+	}
+	for t := r.Range(0, 4); t > 0; t-- {
+		d++
+		bookings(d, r.Range(1, dens))
+	}
+	if fault == "unopened" {
+		tx(r.Range(0, d), "Assets:Bank", "Expenses:Ghost", 1, "CHF")
+	}
+	for i := len(lines) - 1; i > 0; i-- {
+		j := r.Intn(i + 1)
+		if r.Chance(1, 3) && lines[i].day != lines[j].day {
+			lines[i], lines[j] = lines[j], lines[i]
+		}
+	}
+	var b strings.Builder
+	for _, l := range lines {
+		b.WriteString(l.text)
+		b.WriteString("\n")
+	}
+	coms := append([]string{}, known...)
+	if len(coms) == 0 {
+		coms = []string{"CHF"}
+	}
+	return genJournal{Text: b.String(), Days: len(ndays), Fault: fault, Span: d, Coms: coms, Groups: groups}
+}
+
+// c19Quote runs the quote stream: njournals journals × ncmds valued commands (balance / register with drawn flags, transcode,
+// portfolio returns / weights); three of four jobs under the race detector; all monitors of the trace / race streams apply.
+func (c *Ctx) c19Quote(stream string, njournals, ncmds, nseeds int) {
+	var jobs []*procJob
+	idx := 0
+	faults := []string{"", "", "early", "early", "unopened"}
+	for j := 0; j < njournals; j++ {
+		r := c.Rng(stream, j)
+		jr := genQuoteJournal(r, Pick(r, faults), c.Thorough())
+		tail := c19Matrix(r)
+		tail = tail[len(tail)-11:]
+		for k := 0; k < ncmds; k++ {
+			var pc procCmd
+			switch {
+			case k == 0:
+				pc = procCmd{Name: "balance", Args: []string{"balance", "--color=false", "-v", "CHF"}, Stages: []int{6}, DaysOK: true, Valued: true}
+			case k == 1:
+				pc = tail[(j+2)%len(tail)]
+				for !pc.Valued {
+					pc = tail[r.Intn(len(tail))]
+				}
+			default:
+				pc = genGrowCmd(r, jr, r.Range(1, 4)) // not level 0: `register -m 0` panics in the renderer, see genGrowCmd
+			}
+			i := idx
+			idx++
+			if !c.Want(stream, i) {
+				continue
+			}
+			var seeds []uint64
+			for s := 0; s < nseeds; s++ {
+				seeds = append(seeds, c.Seed*7919+uint64(i*31+s)+1)
+			}
+			jobs = append(jobs, &procJob{Stream: stream, Index: i, J: jr, Cmd: pc, Seeds: seeds, Race: (j+k)%4 != 3})
 		}
 	}
 	c.c19RunProcJobs(jobs)
@@ -2356,6 +2629,11 @@ func runC19(c *Ctx) {
 	timed("grow_s", func() {
 		if on("grow") {
 			c.c19Grow("grow", c.N(6, 30), c.N(8, 12), c.N(2, 3))
+		}
+	})
+	timed("quote_s", func() {
+		if on("quote") {
+			c.c19Quote("quote", c.N(48, 600), 3, c.N(3, 4))
 		}
 	})
 	timed("loader_s", func() {
